@@ -23,6 +23,7 @@ type VM struct {
 
 	backtrace []pos
 	frame     frame
+	depth     int // script calls already nested around this VM (it runs a call made by a native: Func)
 }
 
 func (v *VM) Set(key string, value Value) { v.globals.Set(key, value) }
@@ -100,6 +101,7 @@ func (v *VM) Func(fnc Value, xRets int, params ...Value) (rets []Value, err erro
 		globals: v.globals,
 		stdout:  v.stdout,
 		stack:   append(append(make([]Value, 0, len(params)+1), params...), fnc), // never run on the caller's slice
+		depth:   v.depth + len(v.backtrace) + nativeCallDepth,
 		frame: frame{Codes: []instruction{{
 			Code: codeCall,
 			A:    reg(len(params)),
@@ -256,11 +258,15 @@ func (v *VM) Eval(sys fs.FS, fname, input string, options ...RunOption) (rets []
 // fatal error that no recover catches: a recursion this deep ends with a run-time error instead.
 const maxCallDepth = 250000
 
+// nativeCallDepth is what a call made by a native (Func: a sort comparator, a hook) counts for: it nests the Go
+// frames of the native and of a VM of its own around the script call.
+const nativeCallDepth = 16
+
 func mkFunc(args, rets, slots int, tokens []instruction) func(v *VM) {
 	empty := make([]Value, slots-args)
 	codes := tokens[args+rets:]
 	return func(v *VM) {
-		if len(v.backtrace) >= maxCallDepth {
+		if v.depth+len(v.backtrace) >= maxCallDepth {
 			panic("call stack too deep")
 		}
 		v.backtrace = append(v.backtrace, v.frame.Codes[v.frame.N].Pos)
